@@ -4,6 +4,10 @@ import json, os
 HERE = os.path.dirname(os.path.abspath(__file__))
 TECH = "bounded symbolic execution of rustc MIR of /repo (mirsym, own MIR->SMT engine) decided by z3; cvc5 + z3-4.8.12 re-decide every VC in the thorough tier; counterexamples replayed natively before reporting"
 CHECKS = {
+ 'C10': dict(
+   text="Bounded model checking of the real ChannelSlots code from MIR: (i) every history of K symbolic open(Some id)/open(None)/close/drain operations from the fresh table for every channel_max at once, against a ghost open-set oracle; (ii) one inductive step from an arbitrary table satisfying the representation invariant (all 65536 ids as SMT arrays), which extends the claim to histories of any length; CTIs are turned into real histories and replayed.",
+   note="HashMap/IndexSet summarised (association list / arrays); entry-making closure assumed to succeed; the never-used-id scan is unrolled u times (longer scans of occupied ids outside the claim); quick tier uses the overflow-checking (dev) MIR profile, thorough both profiles.",
+   ref="DESIGN.md §4 C10"),
  'C14': dict(
    text="Bounded model checking of the real ConfirmSmoother code (MIR of process/new_iter/Iter::next/Iter::drop): all 64-bit starting tags and all kind/tag/multiple values at once for N raw confirmations inside a tag window, plus one inductive step from an arbitrary smoother state; an SMT oracle states tag order, non-multiple, true outcome and exact emission time.",
    note="HashMap<u64,Confirm> summarised as SMT arrays; tags < 2^64-64; N and window bounds as recorded in evidence.bounds; histories longer than N are covered only by the inductive safety step (order/no duplicates), not by the outcome oracle.",
